@@ -246,6 +246,8 @@ def main(argv):
     tier = C.tier_from_argv(argv)
 
     def gen_ops(rng, n):
+        if HUNG:
+            return []          # a run already failed to terminate: no point in searching further
         ops = [LP.LOOPS['panoc']['gen_run'](rng, solver='panoc', nanat=0).line() for _ in range(n)]
         if exe:
             ops += sweep_ops(rng, exe, 8 if tier == 'quick' else 60)
